@@ -602,6 +602,8 @@ class Client:
 
     def try_connect(self, world):
         import socket as _s
+        if world.clock < getattr(self, 'arrive_at', 0.0):
+            return False          # the client has not dialled yet (virtual time)
         fam = int(_s.AF_INET if self.family == 4 else _s.AF_INET6)
         for (f, _port), lst in world.listeners.items():
             if f == fam and lst.listening and not lst.closed:
